@@ -96,6 +96,17 @@ def run(e: Engine, rep: Report):
         'two sessions that are open at the same time (pool clients) queue '
         'their owed replies in one list, and a flush in one reads the '
         'other\'s replies from the wrong socket')
+    rep.rule('F9', '= C09-G8: no raise in the receive path of IO is '
+             'conditioned on how much is buffered (a burst of short '
+             'pipelined replies is a large buffer without a long line)')
+    from . import c09 as _c09
+    _c09.g8(e, rep, 'F9')
+    rep.rule('F10', 'a search of the receive buffer that is resumed where '
+             'the last one stopped (start = the old length) looks for a '
+             'one-byte needle, or steps back by the needle length - 1: a '
+             'CR LF cut between two reads is still found, the reader does '
+             'not wait for bytes the server has no reason to send')
+    f10(e, rep)
     rep.floor('F2', 14, 'command methods')
 
 
@@ -639,3 +650,47 @@ def f7(e: Engine, rep: Report):
               'the wrong command, and the client reads past the last reply '
               'it is owed)' % (sorted(st) if st else 'no'),
               loc=calls[0].loc(), reason='one io.recv_reply() on every path')
+
+
+# --------------------------------------------------------------------- F10
+def f10(e: Engine, rep: Report):
+    n = 0
+    for f in e.p.functions.values():
+        if f.module.name != 'slimta.smtp.io':
+            continue
+        lens = {}
+        for a in walk_own(f.node):
+            if isinstance(a, ast.Assign) and len(a.targets) == 1 and \
+                    isinstance(a.targets[0], ast.Name) and \
+                    isinstance(a.value, ast.Call) and \
+                    isinstance(a.value.func, ast.Name) and \
+                    a.value.func.id == 'len' and a.value.args:
+                lens[a.targets[0].id] = a.value.args[0]
+        for c in walk_own(f.node):
+            if not (isinstance(c, ast.Call) and
+                    isinstance(c.func, ast.Attribute) and
+                    c.func.attr in ('find', 'index') and len(c.args) >= 2
+                    and isinstance(c.args[0], ast.Constant) and
+                    isinstance(c.args[0].value, (bytes, str))):
+                continue
+            needle, start = c.args[0].value, c.args[1]
+            n += 1
+            rep.evaluations += 1
+            rep.functions.add(f.qname)
+            resumed = isinstance(start, ast.Name) and start.id in lens and \
+                ast.unparse(lens[start.id]) == ast.unparse(c.func.value)
+            rep.check(not (resumed and len(needle) > 1), 'F10', f.qname,
+                      'resumed search `%s`' % ' '.join(
+                          ast.unparse(c).split())[:50],
+                      'the search for %r starts at `%s`, the length the '
+                      'buffer had before the last read: when the read '
+                      'boundary falls inside the %d-byte needle it is never '
+                      'found, and the reader waits for more although the '
+                      'reply is complete' % (
+                          needle, ast.unparse(start), len(needle)),
+                      loc=f.loc(c), reason='one-byte needle or search from '
+                      'a position that covers a cut needle')
+    if n == 0:
+        rep.ok('F10', 'slimta.smtp.io', 'no resumed searches of the buffer',
+               reason='every search starts at the head of the buffer',
+               nontrivial=False)
